@@ -24,12 +24,13 @@ After(e) ==
       [] e.e = "st.removeDev" -> MapRemoveDev(map, e.dev)
       [] e.e = "st.removeIf" -> MapRemoveIf(map, e.dev, e.ifid)
       [] e.e = "st.restore" -> slots[e.slot]
+      [] e.e = "st.adopt" -> VecAsMap(ObsVec(e))     \* a tracker met in the middle of its life (suite recorder): start from what is observed
 
 OpFails(e) ==
     LET v == ObsVec(e)  m2 == After(e) IN
     IF ~VecWellFormed(v) \/ VecAsMap(v) # m2 \/ ~LookupsOK(e) THEN {"C16"} ELSE {}
 
-Ops == {"st.new", "st.clear", "st.update", "st.removeDev", "st.removeIf", "st.restore"}
+Ops == {"st.new", "st.clear", "st.update", "st.removeDev", "st.removeIf", "st.restore", "st.adopt"}
 
 Step ==
     /\ l <= Len(Log)
